@@ -121,6 +121,9 @@ func genC02(r *Rng, idx int) *C02Case {
 		cs.Env = GenEnv(r.Fork(1), 2, 12)
 		g := NewGen(r.Fork(2), r.Range(3, 24))
 		g.MapEmphasis = r.Chance(0.75)
+		if !g.MapEmphasis {
+			g.ArrEmphasis = true
+		}
 		cs.Tree = g.Template(cs.Env)
 	}
 	cs.Source = Source(cs.Tree)
